@@ -19,6 +19,9 @@ fn drop_thread(c: &Case, t: usize) -> Case {
     if t < n.jumps.len() {
         n.jumps.remove(t);
     }
+    if t < n.depths.len() {
+        n.depths.remove(t);
+    }
     let map = |x: u32| if (x as usize) > t { x - 1 } else { x };
     n.switches = c
         .switches
@@ -59,6 +62,21 @@ fn drop_calls(c: &Case, t: usize, a: usize, b: usize) -> Case {
             })
             .collect();
     }
+    if t < n.depths.len() {
+        n.depths[t] = c.depths[t]
+            .iter()
+            .filter_map(|(k, kb)| {
+                let k = *k as usize;
+                if k >= b {
+                    Some(((k - (b - a)) as u32, *kb))
+                } else if k >= a {
+                    None
+                } else {
+                    Some((k as u32, *kb))
+                }
+            })
+            .collect();
+    }
     n.churn[t] = c.churn[t]
         .iter()
         .filter_map(|k| {
@@ -92,7 +110,17 @@ fn merge_all_threads(c: &Case, order: &[usize]) -> Case {
         }
         off += c.threads[*t].len() as u32;
     }
-    Case { threads: vec![calls], churn: vec![vec![]], start: 0, switches: vec![], jumps: vec![jumps] }
+    let mut depths: Vec<(u32, u32)> = Vec::new();
+    let mut off = 0u32;
+    for t in order {
+        if let Some(ds) = c.depths.get(*t) {
+            for (k, kb) in ds {
+                depths.push((k + off, *kb));
+            }
+        }
+        off += c.threads[*t].len() as u32;
+    }
+    Case { threads: vec![calls], churn: vec![vec![]], start: 0, switches: vec![], jumps: vec![jumps], depths: vec![depths] }
 }
 
 fn merge_two(c: &Case, a: usize, b: usize) -> Case {
@@ -100,6 +128,13 @@ fn merge_two(c: &Case, a: usize, b: usize) -> Case {
     let mut n = drop_thread(c, b);
     let a2 = if b < a { a - 1 } else { a };
     let off = n.threads[a2].len() as u32;
+    if let Some(ds) = c.depths.get(b) {
+        if a2 < n.depths.len() {
+            for (k, kb) in ds {
+                n.depths[a2].push((k + off, *kb));
+            }
+        }
+    }
     if let Some(js) = c.jumps.get(b) {
         if a2 < n.jumps.len() {
             for (k, dm, dr) in js {
@@ -363,6 +398,13 @@ pub fn minimise(
                 for k in 0..best.jumps[t].len() {
                     let mut c = best.clone();
                     c.jumps[t].remove(k);
+                    cands.push(c);
+                }
+            }
+            for t in 0..best.depths.len() {
+                for k in 0..best.depths[t].len() {
+                    let mut c = best.clone();
+                    c.depths[t].remove(k);
                     cands.push(c);
                 }
             }
